@@ -91,3 +91,5 @@ def run(repo, res, tier):
     # the token in front of which an empty value is supplied: reserved keywords and statement delimiters only
     from .. import langrules as _lr5
     _lr5.rule_hook_lang(repo, res, _lr5.analyse(repo))
+    # a character outside the dialect's set is ill-formed text: the accepted set of char_allowed is exactly the dialect's
+    common.rule_i1(repo, res)
